@@ -32,16 +32,16 @@ type C14Run struct {
 	Decisions []simrt.Decision `json:"seam_decisions"`
 	// Decoy, if present, is a related scenario queried (same kind of query) right before this
 	// run: the history another client of the library would create.
-	Decoy *C14Scenario `json:"preceded_by,omitempty"`
-	order     *simrt.OrderSource
-	ids       []string
-	set       map[string]bool
-	err       string
-	panicked  string
-	aborted   bool
-	steps     int64
-	budget    int64
-	skipped   bool
+	Decoy    *C14Scenario `json:"preceded_by,omitempty"`
+	order    *simrt.OrderSource
+	ids      []string
+	set      map[string]bool
+	err      string
+	panicked string
+	aborted  bool
+	steps    int64
+	budget   int64
+	skipped  bool
 }
 
 type C14Replay struct {
@@ -95,15 +95,15 @@ func (sc *C14Scenario) valid() bool {
 }
 
 type c14Info struct {
-	lineN, added       int
-	layerDisagree      bool
-	measuredProper     bool
-	rejected           bool
-	nearBand           int
-	clause6Evaluated   int
-	H, V               int64
-	worstRatio         float64
-	worstExcess        float64
+	lineN, added                    int
+	layerDisagree                   bool
+	measuredProper                  bool
+	rejected                        bool
+	nearBand                        int
+	clause6Evaluated                int
+	H, V                            int64
+	worstRatio                      float64
+	worstExcess                     float64
 	worstRatioGeneric, worstRatioEW float64
 }
 
